@@ -49,7 +49,7 @@ package samlidp
 //@ requires[cfg] s: serverConfigured(s)
 //@ requires[cfg] r: r != nil && r.URL != nil && req != nil && req.IDP != nil
 //@ -- login: the session is stored and returned only after the user record was loaded and bcrypt accepted the password
-//@ assert@call[C19] Put #1 (st Store, key string, v interface{}) uses user User password_verified:
+//@ assert@call[C19] Put #each (st Store, key string, v interface{}) uses user User password_verified:
 //@    StoreHas(s.Store, "/users/"+UserKeyOf(r)) == StoreHas(s.Store, "/users/"+UserKeyOf(r)) && PasswordChecked(user.HashedPassword)
 //@ -- (stated about whichever session is returned, not about the n-th return statement: a session comes either from the login
 //@ -- branch - then it describes the user whose record was loaded - or from the store under the cookie's value, unexpired)
@@ -68,28 +68,37 @@ package samlidp
 //@ contract (*Server).sendLoginForm
 //@ requires[cfg] r: req != nil && req.IDP != nil
 //@ -- C14: the login form is rendered by html/template with toast, URL, request and relay state as data
-//@ assert@call[C14] (*html/template.Template).Execute #1 (t *template.Template, out io.Writer, data interface{}) html_template:
+//@ assert@call[C14] (*html/template.Template).Execute #each (t *template.Template, out io.Writer, data interface{}) html_template:
 //@    t != nil && (t == s.LoginFormTemplate || (s.LoginFormTemplate == nil && t == defaultLoginFormTemplate))
+//@ -- ... and every caller-controlled string - the toast included - reaches the template as a plain string, the type the
+//@ -- contextual escaper treats as text (template.HTML, template.URL, template.JS mean "already safe, do not escape")
+//@ go func loginFormData(d interface{}) (struct { Toast string; URL string; SAMLRequest string; RelayState string }, bool) {
+//@    x, ok := d.(struct { Toast string; URL string; SAMLRequest string; RelayState string }); return x, ok }
+//@ go func isLoginFormData(d interface{}) bool { _, ok := loginFormData(d); return ok }
+//@ go func loginFormToast(d interface{}) string { x, _ := loginFormData(d); return x.Toast }
+//@ go func loginFormRelay(d interface{}) string { x, _ := loginFormData(d); return x.RelayState }
+//@ assert@call[C14] (*html/template.Template).Execute #each (t *template.Template, out io.Writer, data interface{}) plain_strings_as_data:
+//@    isLoginFormData(data) && loginFormToast(data) == toast && loginFormRelay(data) == req.RelayState
 
 //@ -- stored password hashes are never disclosed: the user record is encoded only after the hash was cleared
 //@ go func userHashCleared(v interface{}) bool { u, ok := v.(User); return ok && u.HashedPassword == nil }
 //@ contract (*Server).HandleGetUser
 //@ requires[cfg] s: serverConfigured(s)
 //@ requires[cfg] r: r != nil && w != nil
-//@ assert@call[C19] Encode #1 (enc *json.Encoder, v interface{}) hash_redacted: userHashCleared(v)
+//@ assert@call[C19] Encode #each (enc *json.Encoder, v interface{}) hash_redacted: userHashCleared(v)
 //@ assert@call[C19] Get #each (st Store, key string, v interface{}) addresses_the_named_record: st == s.Store && key == "/users/" + r.PathValue("id")
 
 //@ contract (*Server).HandlePutUser
 //@ requires[cfg] s: serverConfigured(s)
 //@ requires[cfg] r: r != nil && w != nil && r.Body != nil
 //@ -- what is stored never carries the plaintext password
-//@ assert@call[C19] Put #1 (st Store, key string, v interface{}) uses user User no_plaintext_stored: user.PlaintextPassword == nil
+//@ assert@call[C19] Put #each (st Store, key string, v interface{}) uses user User no_plaintext_stored: user.PlaintextPassword == nil
 //@ assert@call[C19] Put #each (st Store, key string, v interface{}) stores_under_the_named_record: st == s.Store && key == "/users/" + r.PathValue("id")
 //@ assert@call[C19] Get #each (st Store, key string, v interface{}) reads_the_named_record: st == s.Store && key == "/users/" + r.PathValue("id")
 //@ -- a supplied password - the empty one included - always replaces the stored hash: the previous hash is looked up and
 //@ -- kept only when the request carried no password field, and what is hashed is the supplied password itself
-//@ assert@call[C19] Get #1 (st Store, key string, v interface{}) uses user User keeps_hash_only_without_password: user.PlaintextPassword == nil
-//@ assert@call[C19] GenerateFromPassword #1 (pw []byte, cost int) uses user User hashes_supplied_password:
+//@ assert@call[C19] Get #each (st Store, key string, v interface{}) uses user User keeps_hash_only_without_password: user.PlaintextPassword == nil
+//@ assert@call[C19] GenerateFromPassword #each (pw []byte, cost int) uses user User hashes_supplied_password:
 //@    user.PlaintextPassword != nil && string(pw) == *user.PlaintextPassword
 
 //@ -- the service registry is kept in step with the stored services
@@ -118,7 +127,7 @@ package samlidp
 //@ ghost func allocatedHereBytes(b []byte) bool
 //@ assert@return[C19,C20] #each (out []byte) own_memory: allocatedHereBytes(out)
 //@ ensures[C19] length: len(result) == n
-//@ assert@call[C19] io.ReadFull #1 (r io.Reader, buf []byte) uses rv []byte fills_all_from_configured_source:
+//@ assert@call[C19] io.ReadFull #each (r io.Reader, buf []byte) uses rv []byte fills_all_from_configured_source:
 //@    r == saml.RandReader && sameBytes(buf, rv) && len(buf) == n
 
 //@ contract getSPMetadata
@@ -130,19 +139,19 @@ package samlidp
 //@ -- after a successful update the new entity ID is registered and the one this service name had before is not
 //@ -- (C08: whether an assertion leaves encrypted is decided on the registered metadata - a registry that lags behind the
 //@ -- store keeps answering from a descriptor without the key the provider has published since)
-//@ assert@call[C19,C08] WriteHeader #1 (rw http.ResponseWriter, code int) uses previous Service, previousErr error, service Service registry_in_step:
+//@ assert@call[C19,C08] WriteHeader #each (rw http.ResponseWriter, code int) uses previous Service, previousErr error, service Service registry_in_step:
 //@    registered(s, service.Metadata.EntityID) &&
 //@    (previousErr == nil && previous.Metadata.EntityID != service.Metadata.EntityID ==> !registered(s, previous.Metadata.EntityID))
 //@ -- the registry follows the store, never the other way round: entries change only after the store accepted the write,
 //@ -- so a failed write leaves the registry (and what a restarted server would rebuild from the store) unchanged
-//@ assert@store[C19] serviceProviders[] #1 (k string, v *saml.EntityDescriptor) registered_only_after_store_write: PutDone(s.Store)
+//@ assert@store[C19] serviceProviders[] #each (k string, v *saml.EntityDescriptor) registered_only_after_store_write: PutDone(s.Store)
 //@ -- which entity ID the name was registered under is read before the record is overwritten (read afterwards it is the
 //@ -- new one, and the old registration would stay in the registry)
-//@ assert@call[C06,C19] Put #1 (st Store, key string, v interface{}) uses prevRead=reached:previousErr bool previous_registration_read_first: prevRead
-//@ assert@call[C19] delete #1 (m map[string]*saml.EntityDescriptor, k string) unregistered_only_after_store_write: PutDone(s.Store)
+//@ assert@call[C06,C19] Put #each (st Store, key string, v interface{}) uses prevRead=reached:previousErr bool previous_registration_read_first: prevRead
+//@ assert@call[C19] delete #each (m map[string]*saml.EntityDescriptor, k string) unregistered_only_after_store_write: PutDone(s.Store)
 //@ contract (*Server).HandleDeleteService
-//@ assert@call[C19] delete #1 (m map[string]*saml.EntityDescriptor, k string) unregistered_only_after_store_delete: DeleteDone(s.Store)
-//@ assert@call[C19] WriteHeader #1 (rw http.ResponseWriter, code int) uses service Service unregistered:
+//@ assert@call[C19] delete #each (m map[string]*saml.EntityDescriptor, k string) unregistered_only_after_store_delete: DeleteDone(s.Store)
+//@ assert@call[C19] WriteHeader #each (rw http.ResponseWriter, code int) uses service Service unregistered:
 //@    !registered(s, service.Metadata.EntityID)
 
 //@ -- C19: the management handlers address exactly the record the request names: the store key is the resource prefix
